@@ -119,12 +119,7 @@ static void check_case(vg::Src& s, vh::Ctx& c)
     {
         g = va::make_grid(sp);
     }
-    catch (const std::logic_error& e)  // invalid_argument, out_of_range (.at / check_size)
-    {
-        threw = true;
-        what = e.what();
-    }
-    catch (const std::runtime_error& e)
+    catch (const std::exception& e)  // "fails with an error": any error type counts
     {
         threw = true;
         what = e.what();
